@@ -338,6 +338,11 @@ def r_keep(ck: Checker) -> None:
             loop = enclosing_loop(func, ret)
             ck.need(loop is not None, "contains_false returns True inside its loop")
             ck.guard("contains_false is true only for a constant-false literal", func, ret, f"CleanupTranslator.false({unparse(loop.target)})", "a statement is dropped only if its body can never hold")  # type: ignore[union-attr]
+            itcf = ck.interp(func)
+            lv = unparse(loop.target)  # type: ignore[union-attr]
+            whole = itcf.texts(ret, ast.Name(lv, ast.Load())) == {lv} and {st_.origin.get(lv, "") for st_ in itcf.states(ret)} == {f"{func.params()[0]}[*]"}
+            ck.add("... and the tested literal is the body element itself", whole, func, ret, f"`{lv}` at the return is {sorted(itcf.texts(ret, ast.Name(lv, ast.Load())))}",
+                   "`#false : sel(Y), Y > X` is satisfiable (it holds when the condition is empty): testing the head literal of a conditional literal instead of the element drops the condition, and remove_boolean deletes a rule that can fire")
     # cleanup_boolean_conditionals / cleanup_boolean_aggregates: kept unless the (cleaned) condition contains false
     for name, what in (("cleanup_boolean_conditionals", "conditional literal"), ("cleanup_boolean_aggregates", "aggregate element")):
         func = ck.func(f"{CLS}.{name}")
@@ -364,6 +369,15 @@ def r_keep(ck: Checker) -> None:
             ok2, n = every_iteration_reaches(ck, func, loop, app, pins)  # type: ignore[arg-type]
         ck.add(f"{what} is kept unless its condition contains #false", ok2 and n > 0, func, app, f"under contains_false(cleaned condition) == False every iteration keeps the {what}: {ok2} ({n} path classes)",
                f"a {what} may vanish only if its condition can never hold")
+        if name == "cleanup_boolean_aggregates":
+            # the aggregate literal itself stays, also when no element is left (an aggregate over nothing still has a value)
+            whole = [a for a in apps if isinstance(a.args[0], ast.Call) and isinstance(a.args[0].func, ast.Attribute) and a.args[0].func.attr == "update" and any(kw.arg == "atom" for kw in a.args[0].keywords)]
+            ck.need(len(whole) == 1, "the cleaned aggregate literal is appended at one site")
+            wl = enclosing_loop(func, whole[0])
+            wv = unparse(wl.target) if wl is not None else "?"
+            okw, nw = every_iteration_reaches(ck, func, wl, whole[0], Pins.of(vals={f"{wv}.ast_type": "ASTType.Literal", f"{wv}.atom.ast_type": "ASTType.BodyAggregate"})) if wl is not None else (False, 0)
+            ck.add("an aggregate literal is kept even if none of its elements is", okw and nw > 0, func, whole[0], f"for a body aggregate every iteration appends the rebuilt literal: {okw} ({nw} path classes)",
+                   "`2 <= #count{ X : p(X), #false }` is false, not absent: deleting the literal turns the rule into a fact")
         # everything else is passed through unchanged
         others = [a for a in apps if a is not app]
         for other in others:
@@ -444,6 +458,12 @@ def r_local_superseed(ck: Checker) -> None:
     ck.need(len(ys) == 1, "_collect_top_level_body_symbols yields at one site")
     y = ys[0]
     lit = unparse(y.value)  # type: ignore[attr-defined]
+    yl = enclosing_loop(coll, y)
+    ck.need(yl is not None and isinstance(yl.target, ast.Name), "_collect_top_level_body_symbols loops over the body")
+    ytx = itc.texts(y, y.value)  # type: ignore[attr-defined]
+    yorg = {st_.origin.get(yl.target.id, "") for st_ in itc.states(y)}  # type: ignore[union-attr]
+    ck.add("body symbols: the yielded literal is a TOP-LEVEL element of the body", ytx == {yl.target.id} and yorg == {f"{coll.params()[0]}[*]"}, coll, y, f"yields {sorted(ytx)} (loop element from {sorted(yorg)})",  # type: ignore[union-attr]
+           "`ok(X) :- node(X), marked(X) : edge(X,Y).` does not imply marked(X) (the conditional literal holds vacuously without edges): the head literal of a conditional literal is not implied by the rule head")
     for cond in (f"{lit}.ast_type == ASTType.Literal", f"{lit}.atom.ast_type == ASTType.SymbolicAtom", f"{lit}.atom.symbol.ast_type == ASTType.Function"):
         ck.add(f"body symbols: {cond.split('.')[-1]}", itc.holds(y, cond), coll, y, f"`yield {lit}` dominated by `{cond}`: {itc.holds(y, cond)}", "only plain body atoms are implied by the head")
 
